@@ -33,7 +33,10 @@
 (*       (require spec..) (define (n x) ..)..  (emit (list 'unit-K uses..))*)
 (*     optionally followed by a form that fails: "free" = a reference to   *)
 (*     an undefined identifier (the unit does not compile), "rt" = a       *)
-(*     run-time error.  One module may be erroneous: "compile" (free       *)
+(*     run-time error; "parse" / "nomatch" / "redef" / "setlit" = the unit *)
+(*     is rejected by the parser / the macro expander (no clause matches)  *)
+(*     / the lowering pass (a name defined twice in one form, assignment   *)
+(*     to a literal): like "free", nothing of the unit happens.  One module may be erroneous: "compile" (free       *)
 (*     identifier in its body) or "runtime" (its body raises at the end).  *)
 (*   * after every unit each name of ProbeNames is probed by separate      *)
 (*     one-form evaluations: (emit (n 1)) and (emit (n 's)).               *)
@@ -93,7 +96,7 @@ CONSTANTS MaxMods,     \* number of module files is chosen in 1..MaxMods
           MaxSpecsP,   \* require specs per unit (1..2)
           OwnSets,     \* the sets of names a unit may define itself
           UseSet,      \* subset of BOOLEAN: does the unit use its imports itself
-          FailSet,     \* subset of {"none","free","rt"}
+          FailSet,     \* subset of {"none","free","rt","parse","nomatch","redef","setlit"}
           ErrKinds,    \* subset of {"none","compile","runtime"}
           MaxUnits,
           ProbeNames,  \* subset of Locals probed after every unit
@@ -397,8 +400,13 @@ EvalUnit ==
                 \o "(emit (list 'unit-" \o ToString(k)
                 \o JoinSp([j \in 1..Len(useseq) |-> "(" \o useseq[j] \o " 1)"]) \o "))"
                 \o (IF fail = "free" THEN " (emit (c14-undefined-at-top 1))" ELSE "")
+                \* the other STAGES at which a unit can be rejected before anything of it runs
+                \o (IF fail = "parse" THEN " (emit (if))" ELSE "")
+                \o (IF fail = "nomatch" THEN " (define-syntax c14-m" \o ToString(k) \o " (syntax-rules () [(_ a) a])) (emit (c14-m" \o ToString(k) \o "))" ELSE "")
+                \o (IF fail = "redef" THEN " (begin (define c14-z" \o ToString(k) \o " 1) (define c14-z" \o ToString(k) \o " 2))" ELSE "")
+                \o (IF fail = "setlit" THEN " (set! 1 2)" ELSE "")
                 \o (IF fail = "rt" THEN " (error \"c14-unit-failure\")" ELSE "")
-         nocompile == fail = "free" \/ (errm.kind = "compile" /\ errm.m \in clo)
+         nocompile == fail \in {"free", "parse", "nomatch", "redef", "setlit"} \/ (errm.kind = "compile" /\ errm.m \in clo)
          rebroken == clo \cap broken # {}
          rtmod == errm.kind = "runtime" /\ InSeq(new, errm.m)
          desc == [specs |-> specs, own |-> ownseq, use |-> use, fail |-> fail]
